@@ -119,7 +119,10 @@ def setup(job, vals=None):
         alpha = Lin(V(Fraction(fixed["alpha"]))) if "alpha" in fixed else Lin(V.var("alpha"))
         for i in range(n):
             dp = sym_dp(i, 1, G, fixed=fixed)
-            if outl and f"po{i}" in fixed:
+            if outl and job.get("p_one"):
+                # boundary of the accepted range: outlier probability exactly 1 -> log p = 0 (the code's "off" sentinel), log(1-p) = -inf
+                dp.outlier_prob, dp.outlier_prob_not = Log(V(1)), Log(V(0))
+            elif outl and f"po{i}" in fixed:
                 dp.outlier_prob, dp.outlier_prob_not = Log(V(Fraction(fixed[f"po{i}"]))), Log(V(Fraction(fixed[f"pn{i}"])))
             elif outl:
                 # the two outlier-prior factors are independent positive unknowns: invariance must not (and does not)
@@ -133,7 +136,9 @@ def setup(job, vals=None):
         thr = float(thr)
         for i in range(n):
             dp = float_dp(i, 1, G, vals)
-            if outl:
+            if outl and job.get("p_one"):
+                dp.outlier_prob, dp.outlier_prob_not = 0.0, -math.inf
+            elif outl:
                 dp.outlier_prob = math.log(float(Fraction(vals.get(f"po{i}", "1/5"))))
                 dp.outlier_prob_not = math.log(float(Fraction(vals.get(f"pn{i}", "4/5"))))
             dps.append(dp)
